@@ -9,11 +9,13 @@ _EP_RULE = ("endpoint stream: ONE real endpoint whose peer is the harness (it an
             "messages it emitted (local port numbers renamed by first appearance), the dispatcher status (running/ok/reset/protocol/panic) and the "
             "connect outcomes are compared with the model; distinct = distinct input")
 PROP = {
-    "props_files": ["Props/C10.v", "Props/C10b.v"],
+    "props_files": ["Props/C10.v", "Props/C10b.v", "Props/C07c.v"],
     "jobs": [
         {"component": "endpoint", "comp_num": 7, "quick": 1600, "thorough": 60000, "timeout": 3000},
         {"component": "net", "comp_num": 70, "quick": 480, "thorough": 30000, "args": ["--stream", "1"], "timeout": 3000},
         {"component": "net", "comp_num": 70, "quick": 480, "thorough": 30000, "args": ["--stream", "7"], "timeout": 3000},
+        # a connect / accept that waits for a local port number resolves once one is released (Chmux/Alloc.v, Props/C07c.v)
+        {"component": "alloc", "comp_num": 71, "quick": 3000, "thorough": 200000, "timeout": 3000},
     ],
     "design_ref": "DESIGN.md section 5, C10",
     "level_text": "Theorems (Coq, closed under the global context) on the endpoint model, for every interleaving incl. an arbitrary peer: a connect request is "
@@ -32,7 +34,7 @@ PROP = {
                   "share a remote number (so two ports that name each other are connected to each other and to no other port, across port-number "
                   "reuse); the first protocol error of any run between two honest endpoints can only be a quantity error (chunk size, buffer overdraw, "
                   "batch size, empty batch, credit overflow, listener-queue overflow): every error about the state of a port or request is impossible, "
-                  "i.e. every frame one endpoint emits is accepted by the table state of the other when it arrives; no panic site is reachable in the composition.",
+                  "i.e. every frame one endpoint emits is accepted by the table state of the other when it arrives; no panic site is reachable in the composition. A request that waits for a free local port number (wait flag / PortsExhausted::Wait, Listener::accept) is not left waiting once a number is released: the allocator theorems of Props/C07c.v (no lost wake-up under any interleaving of releases, polls and dropped allocate() futures) and the allocator differential (component 71) against the real allocator of a connection.",
     "level_note": "PARTIAL: pairing across the two endpoints is now PROVED for the composed model (C10_pairing, C10_paired_exclusive, C10_composed_invariant) and "
                   "additionally exercised by label exchange. Still only exercised / outside the theorems: (i) the quantity errors are excluded from the "
                   "composed no-error theorem because the endpoint model's sending side carries neither port credits (proved separately for one port in "
